@@ -27,11 +27,18 @@ type c14Obs struct {
 	// been failed, so the stored group record can lag behind what the coordinator holds. Second view of the
 	// group: the record the coordinator last ATTEMPTED to write (nil after an attempted delete), taken from
 	// the recording decorator.
-	faultMode         bool
-	prevAtt           gTruth           // attempted-record view after the previous event
-	resValid          bool             // an attempted delete of the group record failed and the record is still stored
-	resGen            int32            // ... generation of that record
-	faultFired        bool             // set by the runner once a store call was failed
+	faultMode  bool
+	prevAtt    gTruth // attempted-record view after the previous event
+	resValid   bool   // an attempted delete of the group record failed and the record is still stored
+	resGen     int32  // ... generation of that record
+	faultFired bool   // set by the runner once a store call was failed
+	// A join answered with an error (UNKNOWN_SERVER_ERROR after a failed write) may or may not have taken
+	// effect. Per member id: generation and subscription of its latest join answered WITHOUT error, and those
+	// of the error-answered joins since; any of them is accepted as "what the member joined / subscribed".
+	okGen             map[string]int32
+	okSub             map[string]string
+	errGens           map[string][]int32
+	errSubs           map[string][]string
 	successAfterFault int              // >=2-member generations completed after a store call had been failed
 	faultLog          []map[string]any // injected faults, for the witness
 }
@@ -113,7 +120,7 @@ func (o *c14Obs) observe(w *gWorld, ev *gEvent) {
 	}
 	defer func() {
 		absent := o.faultMode && !attA.Exists // the coordinator tried to delete the record: the group ended, whether or not the delete worked
-		for _, tr := range ev.afters() { // overlapped requests: the group was absent at SOME instant during the pair
+		for _, tr := range ev.afters() {      // overlapped requests: the group was absent at SOME instant during the pair
 			if !tr.Exists {
 				absent = true
 			}
@@ -125,7 +132,13 @@ func (o *c14Obs) observe(w *gWorld, ev *gEvent) {
 	tr := ev.After
 	switch ev.K {
 	case "join":
+		if o.faultMode && ev.MemberID != "" {
+			o.noteJoin(ev)
+		}
 		if ev.Code < 0 {
+			if ev.MemberID != "" {
+				o.r.Count("join_replies_unknown_server_error_not_judged", 1)
+			}
 			return
 		}
 		o.r.Count("join_replies", 1)
@@ -209,6 +222,56 @@ func (o *c14Obs) observe(w *gWorld, ev *gEvent) {
 	}
 }
 
+// noteJoin (fault mode) records what a join reply that carries a member id told that member.
+func (o *c14Obs) noteJoin(ev *gEvent) {
+	if o.okGen == nil {
+		o.okGen, o.okSub, o.errGens, o.errSubs = map[string]int32{}, map[string]string{}, map[string][]int32{}, map[string][]string{}
+	}
+	id := ev.MemberID
+	if ev.Code < 0 {
+		o.errGens[id] = append(o.errGens[id], ev.Gen)
+		o.errSubs[id] = append(o.errSubs[id], fmt.Sprint(ev.ReqSub))
+		return
+	}
+	o.okGen[id], o.okSub[id] = ev.Gen, fmt.Sprint(ev.ReqSub)
+	o.errGens[id], o.errSubs[id] = nil, nil
+}
+
+// joinedGen (fault mode only): did id's latest join answered without error, or an error-answered join since,
+// carry generation gen?
+func (o *c14Obs) joinedGen(id string, gen int32) bool {
+	if !o.faultMode {
+		return false
+	}
+	if g, ok := o.okGen[id]; ok && g == gen {
+		return true
+	}
+	for _, g := range o.errGens[id] {
+		if g == gen {
+			return true
+		}
+	}
+	return false
+}
+
+// sentSub (fault mode only): is sub the subscription of id's latest join answered without error, or of an
+// error-answered join since?
+func (o *c14Obs) sentSub(id string, sub []string) bool {
+	if !o.faultMode {
+		return false
+	}
+	want := fmt.Sprint(sub)
+	if s, ok := o.okSub[id]; ok && s == want {
+		return true
+	}
+	for _, s := range o.errSubs[id] {
+		if s == want {
+			return true
+		}
+	}
+	return false
+}
+
 // judgeJoin applies the join-reply rules to a non-overlapped reply (code >= 0) against boundary snapshot tr
 // and returns the class and summary of the first rule broken ("" = none).
 func (o *c14Obs) judgeJoin(w *gWorld, ev *gEvent, tr gTruth) (string, string) {
@@ -234,7 +297,7 @@ func (o *c14Obs) judgeJoin(w *gWorld, ev *gEvent, tr gTruth) (string, string) {
 		}
 		for _, id := range listed {
 			sub := ev.Members[id]
-			if info := w.ids[id]; info != nil && fmt.Sprint(info.Sub) != fmt.Sprint(sub) {
+			if info := w.ids[id]; info != nil && fmt.Sprint(info.Sub) != fmt.Sprint(sub) && !o.sentSub(id, sub) {
 				return "leader_member_list_wrong_subscription", fmt.Sprintf("leader was told %s subscribes %v, its latest join sent %v", id, sub, info.Sub)
 			}
 		}
@@ -249,7 +312,7 @@ func (o *c14Obs) judgeJoin(w *gWorld, ev *gEvent, tr gTruth) (string, string) {
 	var lag []string
 	for _, id := range tr.memberIDs() {
 		info := w.ids[id]
-		if info == nil || info.LastJoinGen != ev.Gen {
+		if (info == nil || info.LastJoinGen != ev.Gen) && !o.joinedGen(id, ev.Gen) {
 			g := int32(-1)
 			if info != nil {
 				g = info.LastJoinGen
